@@ -380,6 +380,10 @@ func runC04(c *Ctx) {
 
 	// ---------- O-4 deregistration on every exit ----------
 	c.checkDeregistration(le)
+	// the claimed test (index == -1) is only as good as the heap's index bookkeeping (C03's heap-shape obligations)
+	c.prefix = c.prefix + "O-6/C03:"
+	c.checkHeapShape()
+	c.prefix = strings.TrimSuffix(c.prefix, "O-6/C03:")
 
 	// ---------- O-5 lock hygiene ----------
 	rule5 := "O-5 lock hygiene"
